@@ -311,7 +311,13 @@ private:
         auto new_tree_node = alloc.new_object<tree_node_type>(ed, my_parent, 2, my_body, alloc);
 
         // New right child
-        auto right_child = alloc.new_object<start_deterministic_reduce>(ed, std::forward<Args>(args)..., new_tree_node->right_body, alloc);
+        start_deterministic_reduce* right_child = nullptr;
+        try_call([&] {
+            right_child = alloc.new_object<start_deterministic_reduce>(ed, std::forward<Args>(args)..., new_tree_node->right_body, alloc);
+        }).on_exception([&] {
+            // the node is not linked into the tree yet: nobody else would destroy it (and the split body inside)
+            alloc.delete_object(new_tree_node, ed);
+        });
 
         right_child->my_parent = my_parent = new_tree_node;
 
